@@ -96,9 +96,10 @@ def new_cert(key_name, issuer_id_component, pub_key, signer, start_time, end_tim
         start_time = start_time.astimezone(UTC)
     if end_time.tzinfo is not None:
         end_time = end_time.astimezone(UTC)
-    not_before = start_time.strftime('%Y%m%dT%H%M%S').encode()
+    # '%Y' is not zero-padded on every platform; the format needs four digits
+    not_before = f'{start_time.year:04d}{start_time:%m%dT%H%M%S}'.encode()
     cert_val.signature_info.validity_period.not_before = not_before
-    not_after = end_time.strftime('%Y%m%dT%H%M%S').encode()
+    not_after = f'{end_time.year:04d}{end_time:%m%dT%H%M%S}'.encode()
     cert_val.signature_info.validity_period.not_after = not_after
 
     markers = {}
